@@ -39,7 +39,18 @@ fn one_case_joined(run: &mut Run, defs: &str, text: &str, is_aggregate: bool, li
                 if let Some(Some((cols, rows))) = steps.get(k - 1) { shown = Some(render(cols, rows)); }
                 let table = shown.clone().unwrap_or_default();
                 if table != batch.records() {
-                    run.fail(format!("{} k={}", desc, k), "incremental-table-differs", format!("after line {} the table shown is {:?} but a batch run over the first {} lines gives {:?}", k, table, k, batch.records()));
+                    // known finding D60 only if the two tables differ EXACTLY as the finding says: equal once `-0.0 ↦ 0.0`
+                    // (NaN payloads canonical) is applied to every value, different raw — decided at value level
+                    let last_rows = steps[..k].iter().rev().find_map(|s| s.as_ref());
+                    let d60 = match (last_rows, run_batch_rows(&prepared, &lines[..k])) {
+                        (Some((fc, fr)), Some((bc, br))) => {
+                            let canon = |rows: &Vec<Vec<sqlgrep::model::Value>>| -> Vec<Vec<sqlgrep::model::Value>> { rows.iter().map(|r| r.iter().map(canon_zero_nan).collect()).collect() };
+                            *fc == bc && render(&bc, &br) == batch.records() && render(fc, &canon(fr)) == render(&bc, &canon(&br))
+                        }
+                        _ => false,
+                    };
+                    let class = if d60 { "D60:key-representative-differs" } else { "incremental-table-differs" };
+                    run.fail(format!("{} k={}", desc, k), class, format!("after line {} the table shown is {:?} but a batch run over the first {} lines gives {:?}", k, table, k, batch.records()));
                     break;
                 }
             } else {
